@@ -107,7 +107,7 @@ func same(a, b *ty) bool {
 // the package-level names, and the callees outside the translated set
 
 type sig struct {
-	params  map[string]string // parameter name -> reading of an interface{} / *OrderedMap parameter
+	params  map[string]string // parameter POSITION ("0", "1", …) -> reading of an interface{} / *OrderedMap parameter
 	results []string          // reading of each result
 	locals  map[string]string // local variable -> reading (for `var x any`, `NewOrderedMap()`)
 }
@@ -119,14 +119,14 @@ var sigs = map[string]sig{
 	"RemoveElementAfter":              {},
 	"RemoveElementsBeforeIncluding":   {},
 	"IsEmail":                         {},
-	"traverseMapPath":                 {params: map[string]string{"operatorMap": "Table"}, results: []string{"Meta", "Bool"}, locals: map[string]string{"current": "Meta"}},
+	"traverseMapPath":                 {params: map[string]string{"1": "Table"}, results: []string{"Meta", "Bool"}},
 	"getOp":                           {results: []string{"Meta", "Bool"}},
 	"redactScalarValue":               {results: []string{"J"}},
 	"isFieldNameValue":                {},
 	"isRedactableFieldPatternInArray": {},
 	"isInSearchStage":                 {},
-	"augmentOp":                       {params: map[string]string{"op": "Table", "v": "JObj"}, results: []string{"Table"}, locals: map[string]string{"augmentedOp": "Table"}},
-	"redactQueryValues":               {params: map[string]string{"parentCoreOp": "Meta"}, locals: map[string]string{"coreOp": "Meta"}},
+	"augmentOp":                       {params: map[string]string{"0": "Table", "1": "JObj"}, results: []string{"Table"}},
+	"redactQueryValues":               {params: map[string]string{"3": "Meta"}, locals: map[string]string{"coreOp": "Meta"}},
 	"redactArrayValuesWithKey":        {},
 	"redactArrayValues":               {},
 	"HashName":                        {},
@@ -908,6 +908,11 @@ func (x *tr) define(ind int, n ast.Node, lhs []ast.Expr, rhs []ast.Expr) {
 			v := vals[i]
 			if v.t.k == "NewMap" {
 				rd := x.reading(nm)
+				if rd == "" {
+					if fi := x.fns[x.cur]; len(fi.results) == 1 && fi.results[0].k == "Table" {
+						rd = "Table" // a fresh map in a function that returns an operator table
+					}
+				}
 				if rd == "Table" {
 					v = ex{"([] : MTable)", T("Table"), false}
 				} else {
@@ -1454,6 +1459,9 @@ func (x *tr) stmt(ind int, st ast.Stmt) {
 				var v ex
 				if i < len(vs.Values) {
 					v = x.expr(vs.Values[i])
+					if t != nil && t.k == "J" && (v.t.k == "Table" || v.t.k == "Meta") && x.reading(nm.Name) == "" {
+						t = T("Meta") // an interface{} initialised with an operator table / table entry holds table entries
+					}
 					if t != nil {
 						v = x.coerce(vs, v, t)
 					}
@@ -1775,7 +1783,7 @@ func main() {
 				for _, n := range f.Names {
 					rd := ""
 					if sg.params != nil {
-						rd = sg.params[n.Name]
+						rd = sg.params[strconv.Itoa(len(fi.params))]
 					}
 					fi.params = append(fi.params, x.goType(f.Type, rd))
 					fi.pnames = append(fi.pnames, n.Name)
